@@ -43,6 +43,11 @@ type descriptor struct {
 	// IDStyle: how the ids look (gen.B.Style) - e.g. the id of another task is
 	// a proper suffix of the host's id
 	IDStyle int `json:"idStyle,omitempty"`
+	// ExcData: the exception path touches process data: 1 = the flow leaving the
+	// boundary event carries a (true) condition, 2 = an exclusive gateway with
+	// conditions sits on the exception path, 3 = the exception task declares a
+	// result that a gateway behind it reads
+	ExcData int `json:"excData,omitempty"`
 }
 
 type built struct {
@@ -108,8 +113,34 @@ func build(d descriptor) *built {
 		be.Defs = []gen.EventDef{bd.Def}
 		x := b.Add(gen.KTask)
 		xe := b.Add(gen.KEnd)
-		b.Connect(be, x)
-		b.Connect(x, xe)
+		switch d.ExcData {
+		case 1:
+			f := b.Connect(be, x)
+			f.Formal, f.Cond = true, gen.BoolVar("exc")
+			b.Connect(x, xe)
+		case 2:
+			g := b.Add(gen.KXor)
+			b.Connect(be, g)
+			f := b.Connect(g, x)
+			f.Formal, f.Cond = true, gen.BoolVar("exc")
+			other := b.Add(gen.KEnd)
+			df := b.Connect(g, other)
+			g.Default = df.ID
+			b.Connect(x, xe)
+		case 3:
+			x.Results = []string{"excDone"}
+			b.Connect(be, x)
+			g := b.Add(gen.KXor)
+			b.Connect(x, g)
+			f := b.Connect(g, xe)
+			f.Formal, f.Cond = true, &gen.Cond{Op: "not", L: gen.BoolVar("excDone")}
+			other := b.Add(gen.KEnd)
+			df := b.Connect(g, other)
+			g.Default = df.ID
+		default:
+			b.Connect(be, x)
+			b.Connect(x, xe)
+		}
 		bt.bounds = append(bt.bounds, be.ID)
 	}
 	return bt
@@ -126,7 +157,7 @@ func draw(rt *rapid.T) descriptor {
 	exF1, exF2, exF3 := rec.Exclude("C10-F1"), rec.Exclude("C10-F2"), rec.Exclude("C10-F3")
 	kinds := append([]string{"sub"}, gen.TaskKinds...)
 	d := descriptor{HostKind: rapid.SampledFrom(kinds).Draw(rt, "host"), PreTask: rapid.Bool().Draw(rt, "pre"), Perturb: uint64(rapid.IntRange(0, 200).Draw(rt, "perturb")),
-		IDStyle: rapid.SampledFrom([]int{0, 0, 1, 1, 2, 3}).Draw(rt, "idStyle")}
+		IDStyle: rapid.SampledFrom([]int{0, 0, 1, 1, 2, 3}).Draw(rt, "idStyle"), ExcData: rapid.SampledFrom([]int{0, 0, 1, 2, 3}).Draw(rt, "excData")}
 	nb := rapid.IntRange(1, 2).Draw(rt, "bounds")
 	for i := 0; i < nb; i++ {
 		def := gen.EventDef{Kind: "signal", Ref: fmt.Sprintf("s%d", i)}
@@ -228,10 +259,17 @@ func seq(n int) []int {
 }
 
 func vars(d descriptor) map[string]any {
+	v := map[string]any{}
 	if d.Loop > 0 {
-		return map[string]any{"again": false}
+		v["again"] = false
 	}
-	return nil
+	if d.ExcData > 0 {
+		v["exc"], v["excDone"] = true, false
+	}
+	if len(v) == 0 {
+		return nil
+	}
+	return v
 }
 
 // leave is the answer that does not send the token round the loop again
@@ -335,6 +373,9 @@ func classify(d descriptor, out *drive.ScriptOutcome) (cls []string, nt bool) {
 	}
 	if d.TwoTokens {
 		cls = append(cls, "twoTokensInHost")
+	}
+	if d.ExcData > 0 {
+		cls = append(cls, "exceptionPathReadsData")
 	}
 	for _, b := range d.Bounds {
 		if b.Interrupt {
